@@ -191,7 +191,17 @@ def run_panic_inventory(ctx, rid, entries, text, ctx_sensitive=False, kinds=None
         return
     reviewed = table("panic_sites.json")
     seen, parent, sites, ext, indirect = inventory(prog, cg, entries, ctx=ctx_sensitive)
-    n_auto = n_rev = n_skipped = 0
+    n_auto = n_rev = n_skipped = n_moved = 0
+    # reviewed sites that are no longer where they were (their function lost them, or is gone): code that was moved
+    # into a helper keeps its review - one moved site per vanished entry of the same kind, in the same crate
+    present = {s.key for s in sites}
+    vanished = {}
+    for k, r in reviewed.items():
+        if k.startswith("_") or k in present:
+            continue
+        fn_, kind_, detail_ = k.split("|")[0], k.split("|")[1], k.split("|")[2]
+        if fn_ in seen or fn_ not in prog.fns:
+            vanished.setdefault((fn_.split("::", 1)[0], kind_, detail_), []).append(k)
     for s in sites:
         if kinds and s.cls not in kinds:
             n_skipped += 1
@@ -208,8 +218,17 @@ def run_panic_inventory(ctx, rid, entries, text, ctx_sensitive=False, kinds=None
                 n_rev += 1
                 ctx.ob(rid, s.key, True, "", ctx.where(f, s.line), sample={"site": s.key, "discharged": "reviewed: " + r["why"] + (" [guard %s verified]" % g if g else "")})
                 continue
+        pool = vanished.get((s.fn.split("::", 1)[0], s.kind, s.detail), [])
+        if pool and s.key not in reviewed:
+            k_old = pool.pop(0)
+            r = reviewed[k_old]
+            g = r.get("requires")
+            if g is None or guard_holds(ctx, g):
+                n_moved += 1
+                ctx.ob(rid, s.key, True, "", ctx.where(f, s.line), sample={"site": s.key, "discharged": "reviewed as %s (the site moved): %s" % (k_old, r["why"])})
+                continue
         chain = cg.chain(parent, s.fn)
-        if declared_invariants_undecided and ((s.kind == "assert" and s.detail == "bounds") or (s.kind == "call" and s.detail.startswith("core::panicking::"))):
+        if (declared_invariants_undecided is True and s.kind == "assert" and s.detail == "bounds") or (declared_invariants_undecided and s.kind == "call" and s.detail.startswith("core::panicking::")):
             # an index whose range this analysis cannot bound, or an assertion / unreachable!() the author declared:
             # whether it can fire depends on values; no verdict (reported, not an alarm). Calls of panicking library
             # functions (unwrap, expect, Duration arithmetic, slicing, division) stay violations.
@@ -225,6 +244,6 @@ def run_panic_inventory(ctx, rid, entries, text, ctx_sensitive=False, kinds=None
     stale = [k for k in reviewed if not k.startswith("_") and k.split("|")[0] in seen and k not in {s.key for s in sites}]
     inv = ctx.extra.setdefault("inventories", {})
     inv[rid] = {"entries": entries, "reachable_functions": len(seen), "sites": len(sites), "auto_discharged": n_auto,
-                "reviewed": n_rev, "not_judged_here": n_skipped, "kinds_judged": list(kinds) if kinds else "all",
+                "reviewed": n_rev, "reviewed_moved": n_moved, "not_judged_here": n_skipped, "kinds_judged": list(kinds) if kinds else "all",
                 "indirect_calls": indirect, "assumed_total_extern_callees": sorted(ext),
                 "reviewed_entries_not_met": stale}
